@@ -174,6 +174,12 @@ func init() {
 				reflect.DeepEqual(dm.Criteria, before.Criteria) && reflect.DeepEqual(dm.MethodParameters, before.MethodParameters) &&
 				reflect.DeepEqual(dm.Biases, before.Biases) && dm.PreferenceFunction == before.PreferenceFunction && dm.BiasApplyRandomSeed == before.BiasApplyRandomSeed,
 				"MakeDecision modified the request value handed to it")
+			if st0 == 500 {
+				// the decision succeeded but contains a non-finite number (overflow of an exponential gain on a
+				// tiny declared range, …): encoding/json cannot represent it; outside every theorem and oracle
+				o.count("non-finite-output")
+				continue
+			}
 			if (tr.Err == "") != (st0 == 200) {
 				m.Stage = "traced-equals-plain"
 				o.Oracle(m, false, "traced run and plain run disagree on accept/reject")
